@@ -181,11 +181,11 @@ Section Tok.
       eapply (L_two' T_DIVISION 47 61); [reflexivity|symmetry; exact H47|exact E|discriminate|reflexivity|exact F]. }
     destruct (peek_char st =? 47).
     { eapply L_comment; exact F. }
-    destruct (peek_char st =? 42).
-    { destruct (read_multi n st) as [[l st1]| | |] eqn:R; cbn [bind] in F; try discriminate.
-      destruct (read_multi_view rs _ _ _ _ _ _ V R) as (P & Hl & C).
-      eapply fin_plain; [exact V|exact F|reflexivity| |exact P|exact C].
-      apply Hl. rewrite Hc, H47. discriminate. }
+    destruct (peek_char st =? 42) eqn:E42.
+    { apply N.eqb_eq in E42.
+      destruct (read_multi_comment n st) as [[l st1]| | |] eqn:R; cbn [bind] in F; try discriminate.
+      destruct (read_multi_comment_view rs _ _ _ _ _ _ _ V E42 R) as (P & Hl & C).
+      eapply fin_plain; [exact V|exact F|reflexivity|exact Hl|exact P|exact C]. }
     eapply (L_single T_SLASH); [reflexivity|exact F].
   Qed.
 
